@@ -10,7 +10,8 @@ import (
 )
 
 // H_C09_DamagedData: after any single-byte alteration, truncation or record swap of the data file, a reader never
-// returns, without error, a value different from the one written (non-empty values).
+// returns, without error, a value different from the one written for a key with a non-empty value. The table may
+// also hold keys with empty values (zero checksum by format design), for which nothing is required.
 func H_C09_DamagedData() {
 	fs := vEnv()
 	defer fs.Cleanup()
@@ -19,11 +20,19 @@ func H_C09_DamagedData() {
 	n := vrt.Range("n", 1, 2)
 	keys := make([][]byte, n)
 	vals := make([][]byte, n)
+	nonEmpty := 0
 	for i := range keys {
 		keys[i] = []byte{byte('a' + i)}
-		l := vrt.Range(vrt.K("v", i, "len"), 1, 2)
+		l := vrt.Range(vrt.K("v", i, "len"), 0, 2)
 		vals[i] = vrt.BytesN(vrt.K("v", i), l)
+		if l == 0 {
+			vrt.Tag("has-empty-value")
+			vrt.Reach("damage/table-with-empty-value")
+		} else {
+			nonEmpty++
+		}
 	}
+	vrt.Assume(nonEmpty > 0)
 	dataComp := []int{recordio.CompressionTypeNone, recordio.CompressionTypeSnappy}[vrt.Choose("datacomp", 2)]
 	if vrt.Thorough() {
 		dataComp = vComps[vrt.Choose("datacomp2", 4)]
@@ -83,7 +92,7 @@ func H_C09_DamagedData() {
 	for i := range keys {
 		got, gerr := r.Get(keys[i])
 		if gerr == nil {
-			vrt.Assert(vrt.EqBytes(got, vals[i]), "damage/get-never-returns-different-value")
+			vrt.Assert(len(vals[i]) == 0 || vrt.EqBytes(got, vals[i]), "damage/get-never-returns-different-value")
 		} else {
 			vrt.Reach("damage/detected-at-get")
 		}
@@ -100,7 +109,7 @@ func H_C09_DamagedData() {
 			}
 			for j := range keys {
 				if vrt.EqBytes(k, keys[j]) {
-					vrt.Assert(vrt.EqBytes(v, vals[j]), "damage/scan-never-returns-different-value")
+					vrt.Assert(len(vals[j]) == 0 || vrt.EqBytes(v, vals[j]), "damage/scan-never-returns-different-value")
 				}
 			}
 		}
@@ -114,7 +123,7 @@ func H_C09_DamagedData() {
 			}
 			for j := range keys {
 				if vrt.EqBytes(k, keys[j]) {
-					vrt.Assert(vrt.EqBytes(v, vals[j]), "damage/index-scan-never-returns-different-value")
+					vrt.Assert(len(vals[j]) == 0 || vrt.EqBytes(v, vals[j]), "damage/index-scan-never-returns-different-value")
 				}
 			}
 		}
